@@ -693,6 +693,10 @@ func (c *cenv) expr(e ast.Expr) Val {
 		a, b := c.expr(e.X), c.expr(e.Y)
 		c.pol = sp0
 		a, b = c.unify(a, b)
+		if (a.Sort == "nocall" || b.Sort == "nocall") && a.K != b.K && (e.Op == token.EQL || e.Op == token.NEQ) {
+			// a record of a call that did not happen on this path: nothing is known about it
+			return bval(fv.decl("nocall", "Bool"))
+		}
 		if a.K != b.K && !(a.K == KLoc && b.K == KLoc) {
 			return c.fail("operand kinds differ in %s (%d vs %d)", e.Op, a.K, b.K)
 		}
@@ -1076,7 +1080,7 @@ func (c *cenv) call(e *ast.CallExpr) Val {
 				return v
 			}
 			// no such call on this path: an unconstrained value (the clause cannot be proved from it)
-			return Val{K: KIface, T: fv.decl("nocall", "Iface"), Typ: types.NewInterfaceType(nil, nil)}
+			return Val{K: KIface, T: fv.decl("nocall", "Iface"), Typ: types.NewInterfaceType(nil, nil), Sort: "nocall"}
 		case "it0":
 			if c.it0 == nil {
 				return c.fail("it0() only inside loop step clauses")
@@ -1207,7 +1211,21 @@ func (c *cenv) call(e *ast.CallExpr) Val {
 			if !ok1 {
 				return c.fail("called(Method)")
 			}
+			if h, ok := c.st.ghost["has:"+mid.Name+".0"]; ok {
+				return h
+			}
 			_, ok := c.st.ghost[mid.Name+".0"]
+			return bval(fmt.Sprint(ok))
+		case "calledfn":
+			// calledfn(f): function/method f was called (statically) on this path
+			fid, ok1 := e.Args[0].(*ast.Ident)
+			if !ok1 {
+				return c.fail("calledfn(function)")
+			}
+			if h, ok := c.st.ghost["has:arg:"+fid.Name+".0"]; ok {
+				return h
+			}
+			_, ok := c.st.ghost["arg:"+fid.Name+".0"]
 			return bval(fmt.Sprint(ok))
 		case "allocated":
 			// allocated(x): x existed before the call
